@@ -18,6 +18,7 @@ EXPLANATION = (
     "buffer is one byte; end of input exits with status 1. R6 (BITS): OUT/PUTS print bits 7:0, PUTSP prints bits 7:0 then "
     "15:8 of each word, PUTN prints R0 reinterpreted as i16. R7 (DOM): in PUTS/PUTSP every print is dominated by a zero test on the printed "
     "character whose zero side prints nothing more, and the only other exit of the printing loop is the exhausted address range."
+    ' R6/R7 read PUTS/PUTSP either off the loop or off an iterator chain (source.map.flat_map.take_while.for_each) whose closures are composed symbolically.'
 )
 NOT_DECIDED = ("the executed sequence and exact stdout for all images and inputs (UTF-8 re-encoding of bytes >= 0x80 is value-level)")
 
